@@ -670,18 +670,20 @@ def identify(c):
     for kind in ('partial', 'serial'):
       rr = run_script(backend, kind, W_SHORTCUT)
       lg = rr.canon_log()
-      if len(lg) != 2 or rr.errors:
-        raise core.InfraError('witness script (a) did not produce two updates: %s %s' % (rr.api_log, rr.errors))
-      missed = lg[1]['completed'] == [] and any(r[2] == 'completed' and r[0] == 2 for r in lg[1]['env'])
-      shortcut_votes.append(missed)
+      if len(lg) == 2 and not rr.errors:
+        missed = lg[1]['completed'] == [] and any(r[2] == 'completed' and r[0] == 2 for r in lg[1]['env'])
+        shortcut_votes.append(missed)
       rr2 = run_script(backend, kind, W_REUSE)
       lg2 = rr2.canon_log()
-      if len(lg2) != 2 or rr2.errors:
-        raise core.InfraError('witness script (b) did not produce two updates: %s %s' % (rr2.api_log, rr2.errors))
       corpus += [rr, rr2]
-      c.flags.setdefault('idReuseLosesTrial', True)
-      if lg2[1]['completed'] != []:
-        c.flags['idReuseLosesTrial'] = False
+      if len(lg2) == 2 and not rr2.errors:
+        c.flags.setdefault('idReuseLosesTrial', True)
+        if lg2[1]['completed'] != []:
+          c.flags['idReuseLosesTrial'] = False
+  if not shortcut_votes:
+    # the witness could not be replayed (the hosted policy fails): reported by the property stage on the corpus
+    c.notes.append('witness (a) could not be replayed on the real service; comparing against the loader as written')
+    shortcut_votes = [True]
   if len(set(shortcut_votes)) != 1:
     c.tie_break('shortcut variant differs between deployments', {'votes': shortcut_votes}, shortcut_votes, None)
   shortcut = shortcut_votes[0]
